@@ -36,8 +36,9 @@ CHECKS["C12"] = dict(
     text="TLC shows that the code's indicator machine agrees with the declarative, last-attempt-based counters on "
          "every sequential stream of the bounded universes except in three named shapes (F1, F4a, F4b: recorded "
          "known findings); the real Summarize is then fed TLC-generated streams (with replays after Finished) and "
-         "every getter, the scenario statistics and the position of the single summary write are judged by the "
-         "same declarative definition.",
+         "every getter, the scenario statistics, every number printed in the summary text and the position of the "
+         "single summary write are judged by the same declarative definition (streams with log events, ambiguous "
+         "failures, a lazily delivering parser, repeated step texts, a replayed run-Finished).",
     design_ref="DESIGN.md §3 C12",
     note="bounded universes; simulation-mode sampling for replay; features/rules counters read from the summary text",
 )
@@ -49,10 +50,11 @@ CHECKS["C13"] = dict(
               "(Trace_Combinators.tla)",
     level="model_checking",
     text="The wrappers are stateless per event, so inputs are ALL sequences (not only contract-abiding ones) up to "
-         "length 3 (quick) / 4 (thorough) over a 16-symbol alphabet covering every tag placement of @allow.skipped, "
-         "background and own steps, retried and final failures, hooks, parser errors, arbitrary writes and "
-         "run-Finished, plus sampled longer ones; eleven nestings of the real combinators are compared leaf by leaf "
-         "and getter by getter with the TLA+ model.",
+         "length 2 plus all triples with one run-Finished (quick) / all up to length 3 (thorough) over a 25-symbol alphabet "
+         "(background and own steps, top-level and rule scenarios, retried and final failures, hooks, parser errors, "
+         "arbitrary writes, run-Finished), plus sampled longer ones and the full placement matrix of @allow.skipped on "
+         "feature / rule / scenario; twelve nestings of the real combinators (Tee in both orientations) are compared "
+         "leaf by leaf and getter by getter with the TLA+ model.",
     design_ref="DESIGN.md §3 C13",
     note="alphabet-bounded inputs; nestings limited to those that type-check; leaf writer counts its own Stats",
 )
@@ -66,7 +68,9 @@ PURE = {
             "filter vectors (every such expression as --tags; all presence combinations of name regex / tags / closure); "
             "each vector runs the real Cucumber::filter_run with a recording Runner, the expression going through "
             "TagOperation::from_str, and what the runner received is compared with the model.",
-            "one 7-scenario universe with tags on all three levels; regexes realised as alternations of names"),
+            "one 7-scenario universe with tags on all three levels (one scenario without any inherited tag); regexes realised as "
+            "alternations of names that also name a feature and a rule; with and without scenarios sharing a displayed name; "
+            "every vector also through runner::Basic with hooks added after the CLI options"),
     "C16": ("Outline.tla", "Gen_Outline.tla", "Trace_Outline.tla",
             "outline vectors (placeholder shapes x value classes x table layouts, doc strings, step tables, tagged tables, "
             "rule outlines, unknown placeholders) are rendered to Gherkin, parsed and expanded by the crate (directly and "
@@ -75,16 +79,18 @@ PURE = {
             "texts are split back into pieces at U+241F separators; Gherkin backslash escapes excluded"),
     "C17": ("StepMatch.tla", "Gen_StepMatch.tla", "Trace_StepMatch.tla",
             "the model holds definitions as a SET; TLC's BFS over registration sequences yields every registration order of "
-            "every set (<= 3 quick / <= 4 thorough of a 9-definition pool); each order is registered on a fresh real "
-            "Collection and all 21 (keyword, text) lookups are compared with the order-free model, ambiguity candidate "
+            "every set (<= 3 quick / <= 4 thorough of an 11-definition pool incl. an unanchored regex); each order is registered on a fresh real "
+            "Collection and all 27 (keyword, text) lookups are compared with the order-free model, ambiguity candidate "
             "sequences being required to be identical across orders of the same set.",
             "match/capture table cross-checked against the regex crate each run; distinct (keyword, regex, location) keys only"),
     "C18": ("RetryOpts.tla", "Gen_RetryOpts.tla", "Trace_RetryOpts.tla",
             "the full product of tag forms on scenario/rule/feature x CLI x builder counts and delays, the tag-filter "
-            "combinations and the concurrency / fail-fast merges (4536 vectors) each drive one real Runner::run; the merged "
+            "combinations and the concurrency / fail-fast merges (about 16 000 vectors: eight tag shapes incl. composite and zero "
+            "durations, CLI concurrency below and above the builder value) each drive one real Runner::run; the merged "
             "CLI seen by the retry_options function, parse_from_tags' result, the Retries on the Started event and the "
             "hooked limit / fail-fast flag are compared with the TLA+ resolution.",
-            "only the four tag forms the statement names; concurrency/fail-fast observed through the verif hook record"),
+            "only the four tag forms the statement names; concurrency/fail-fast observed through the verif hook record; the C18 "
+            "rules of the monitor hit in the driven and tracing runs are reported by this check too"),
 }
 for _pid, (_spec, _gen, _trace, _txt, _note) in PURE.items():
     CHECKS[_pid] = dict(engine="pure-replay", technique=PURE_TECH.format(spec=_spec, gen=_gen, trace=_trace),
@@ -100,7 +106,9 @@ CHECKS["C14"] = dict(
     text="for every sampled sequential stream (retries, hook failures, skipped / failed / not-found steps, parser errors, "
          "truncated fail-fast streams, features with and without a source path, reporter options) the bag of "
          "(scenario, step | hook | parser error, status) facts parsed back from each of the four reports must equal the "
-         "bag defined by the stream; documents must be well-formed, every libtest started line must have exactly one "
+         "bag defined by the stream, each failed fact with WHY it failed (the panic message, ambiguous match, no matching "
+         "definition); documents must be well-formed, a feature with a source path is one object of the JSON document, "
+         "the message attribute of a JUnit failure states a failure of its body, every libtest started line must have exactly one "
          "result of the same name, suite totals and verdict must agree with the entries, JUnit testcase status with its "
          "lines.  Known findings: F5 (libtest names of path-less features), F8 (JUnit lists no steps of a skipped testcase).",
     design_ref="DESIGN.md §3 C14",
@@ -114,8 +122,9 @@ CHECKS["C19"] = dict(
               "World::collection() and executed; TLC compares the outcomes (Trace_Codegen.tla)",
     level="exploration",
     text="C19 quantifies over programs; a finite zoo (sync/async, unit/Result, typed args with parse failures, slice, "
-         "#[step], literal / regex / Cucumber-expression matchers, a custom Parameter, two attributes on one fn, the same "
-         "literal under two keywords, an optional capture group) is compiled into the harness; 78 (keyword, text) queries "
+         "#[step], literal / regex / Cucumber-expression matchers incl. anonymous parameter, alternative text and escaped "
+         "parentheses, a custom Parameter, two attributes on one fn, the same literal under two keywords, optional and empty "
+         "capture groups in a slice, a Result behind a type alias; 27 functions) is compiled into the harness; about 200 (keyword, text) queries "
          "including near-miss literals and wrong keywords are dispatched and the result (not found / invoked with which "
          "arguments / failed) compared with the TLA+ description.",
     design_ref="DESIGN.md §3 C19",
@@ -128,12 +137,12 @@ RUNNER_TECH = ("TLA+ model of the executor design (Runner.tla) model-checked by 
 RUNNER_NOTE = ("bounded model constants; seeded schedules sample the interleavings of the real code; hooks "
                "(cfg cucumber_verif) and the harness test double are trusted")
 RUNNER_TEXT = {
-    "C01": "TLC checks the design's event streams against the FinalFailure rule; on the code every driven run's real stream is fed through the built-in stats pipelines (Summarize<Normalize>, Libtest, Tee, Or, +-FailOnSkipped/Repeat) and each verdict is compared by the TLA+ monitor with the final-failure predicate evaluated on the recorded stream.",
+    "C01": "TLC checks the design's event streams against the FinalFailure rule; on the code every driven run's real stream is fed through the built-in stats pipelines (Summarize<Normalize>, Libtest, Tee, Or, +-FailOnSkipped/Repeat) and each verdict is compared by the TLA+ monitor with the final-failure predicate evaluated on the recorded stream; every pipeline is driven by the real Cucumber::run event loop and a second instance by run_and_exit, whose panic / no panic must equal the statistics verdict.",
     "C02": "the monitor holds a per-attempt automaton (Started, before hook, steps in declaration order with exactly one result, deferred failure, after hook, Finished, constant retry counter) and checks every result event against what the user callback really did; TLC checks it on all interleavings of the model and on every record of the driven runs.",
     "C03": "bracket rules (run/feature/rule Started/Finished exactly once, nesting, none for empty ones, ParsingFinished counts, parser errors in order, Finished last then end of stream) are monitor rules evaluated on every model state and every recorded run, with lazy parsers, errors, retries and fail-fast.",
     "C04": "safety (exactly the supplied scenarios are attempted) is a monitor rule at stream end; termination is proved on the model as <>Done under fairness (TLC finds the pre-fix idle-spin lasso when the switch is off) and observed on the code as stream end within a watchdog under lazy-parser schedules.",
     "C05": "attempt numbering, left = N - k, retry exactly on failure within budget, no overlap, fresh World per attempt and the one-sided delay bound (Started(k+1) - Finished(k) >= delay, same monotonic clock) are monitor rules on model and code.",
-    "C06": "in-flight count <= limit at every Started, slot accounting (slots + running = limit), batch <= free slots, and work conservation at every Features::get (nothing ready is left behind while slots are free; the executor never parks after a completion without looking at the queue) - checked on all model interleavings and on the recorded get/dispatch/completed records.",
+    "C06": "in-flight count <= limit at every Started, slot accounting (slots + running = limit), batch <= free slots, and work conservation at every Features::get (nothing ready is left behind while slots are free; the executor never parks after a completion without looking at the queue) - checked on all model interleavings and on the recorded get/dispatch/completed records; a TLAPS proof (spec/proof/SlotsInd.tla) shows that the local slot rules imply running <= limit for every limit and run length.",
     "C07": "no attempt or foreign user callback overlaps a serial attempt (event level and callback level), and a serial entry is dispatched only when nothing runs / nothing is dispatched while it runs (dispatch level); TLC rediscovers the pre-fix overlap when the SerialExclusive switch is off.",
     "C08": "after the first final failure no batch is dispatched, only attempts dispatched before it may still begin (fewer than the limit), all brackets close, no ingestion after a parser error; failure-free fail-fast runs are compared scenario by scenario with their twin run without fail-fast.",
     "C09": "the monitor tracks World ids and mutation counters through the callback records of the test double: before hook first on a fresh World, same World with all earlier mutations in every step, after hook exactly once with the true reason and World presence, at most one World per attempt and only when needed, no World shared.",
@@ -187,7 +196,7 @@ def main():
             "enable": "RUSTFLAGS='--cfg cucumber_verif' via /verif/harness/.cargo/config.toml "
                       "(the harness has a path dependency on /repo and is rebuilt by every check)",
             "baseline_off_cmd": "cd /repo && cargo test --workspace --no-fail-fast --offline",
-            "source_commits": ["8cd4e4c", "fe89a36", "41a32ac", "e20061a"],
+            "source_commits": ["8cd4e4c", "fe89a36", "41a32ac", "e20061a", "3919070"],
             "add_only": True,
         },
         "engines": [
